@@ -131,6 +131,21 @@ Proof.
     constructor; [|auto]. split; [reflexivity|]. exists b. auto.
 Qed.
 
+Lemma F2_la_lookup : forall inv suf p p' s l,
+  Forall2 (la_rel inv suf) p p' -> In (s, l) p -> exists b, inv l = Some b.
+Proof.
+  induction 1 as [|a a' q q' [_ [b [Hb _]]] _ IH]; intros Hin; [contradiction|].
+  destruct Hin as [Hin|Hin]; [subst a; simpl in Hb; eauto|auto].
+Qed.
+
+Lemma F2_impl_In : forall {X Y} (R R' : X -> Y -> Prop) q q',
+  Forall2 R q q' -> (forall a b, In a q -> R a b -> R' a b) -> Forall2 R' q q'.
+Proof.
+  induction 1 as [|a b q q' H HF IH]; intros HR; constructor.
+  - apply HR; [now left|assumption].
+  - apply IH. intros a0 b0 Hin. apply HR. now right.
+Qed.
+
 Lemma F2_fst : forall {X Y} (R : string * X -> string * Y -> Prop) p p',
   Forall2 R p p' -> (forall a b, R a b -> fst b = fst a) -> map fst p' = map fst p.
 Proof. induction 1; simpl; intros HR; [reflexivity|]. f_equal; auto. Qed.
@@ -183,6 +198,201 @@ Proof.
   - destruct (String.eqb k k') eqn:E.
     + apply String.eqb_eq in E. subst k'. exfalso. apply H1. apply in_map_iff. exists (k, v). auto.
     + auto.
+Qed.
+
+Lemma in_base_writes : forall {V} sr (d : dict V) k v, In (k, v) d -> In (k, MBase sr k) (base_writes sr d).
+Proof. intros. unfold base_writes. apply in_map_iff. exists (k, v). auto. Qed.
+
+Lemma in_ham_T_writes : forall hc l, In (l, false) hc -> In ((l ++ "_T")%string, MT (MBase SHam l)) (ham_T_writes hc).
+Proof. intros. unfold ham_T_writes. apply in_flat_map. exists (l, false). split; [assumption|now left]. Qed.
+
+Lemma in_conj_writes : forall jd X fl, In (X, fl) jd -> f_real fl = false ->
+  In ((X ++ "_conj")%string, MConj (MBase SJump X)) (conj_writes jd).
+Proof.
+  intros. unfold conj_writes. apply in_flat_map. exists (X, fl). split; [assumption|]. simpl. rewrite H0. now left.
+Qed.
+
+Lemma in_adj_writes : forall jd X fl, In (X, fl) jd -> f_id fl = false -> f_herm fl = false ->
+  In ((X ++ "_H")%string, MH (MBase SJump X)) (adj_writes jd).
+Proof.
+  intros. unfold adj_writes. apply in_flat_map. exists (X, fl). split; [assumption|]. simpl. rewrite H0, H1. now left.
+Qed.
+
+(* ============================================================================================ *)
+(* Label closure                                                                                 *)
+(* ============================================================================================ *)
+Definition labels_of (st : sterm) : list label := (map snd (st_ket st) ++ map snd (st_bra st))%list.
+
+Lemma Forall2_In_r : forall {X Y} (R : X -> Y -> Prop) l l' y,
+  Forall2 R l l' -> In y l' -> exists x, In x l /\ R x y.
+Proof.
+  induction 1 as [|a b l l' H HF IH]; intros Hin; [contradiction|].
+  destruct Hin as [<-|Hin]; [exists a; split; [now left|assumption]|].
+  destruct (IH Hin) as [x [H1 H2]]. exists x. split; [now right|assumption].
+Qed.
+
+Lemma Forall2_In_l : forall {X Y} (R : X -> Y -> Prop) l l' x,
+  Forall2 R l l' -> In x l -> exists y, In y l' /\ R x y.
+Proof.
+  induction 1 as [|a b l l' H HF IH]; intros Hin; [contradiction|].
+  destruct Hin as [<-|Hin]; [exists b; split; [now left|assumption]|].
+  destruct (IH Hin) as [y [H1 H2]]. exists y. split; [now right|assumption].
+Qed.
+
+(* labels of a locally transformed tensor product *)
+Lemma la_labels : forall inv suf p p' l',
+  Forall2 (la_rel inv suf) p p' -> In l' (map snd p') ->
+  exists l b, In l (map snd p) /\ inv l = Some b /\ l' = if b then l else (l ++ suf)%string.
+Proof.
+  intros inv suf p p' l' HF Hin. apply in_map_iff in Hin. destruct Hin as [[s' m'] [<- Hin]].
+  destruct (Forall2_In_r _ _ _ _ HF Hin) as [[s m] [H1 [_ [b [Hb H2]]]]]. simpl in *.
+  exists m, b. split; [|auto]. apply in_map_iff. exists (s, m). auto.
+Qed.
+
+Lemma la_labels_l : forall inv suf p p' l,
+  Forall2 (la_rel inv suf) p p' -> In l (map snd p) -> exists b, inv l = Some b.
+Proof.
+  intros inv suf p p' l HF Hin. apply in_map_iff in Hin. destruct Hin as [[s m] [<- Hin]].
+  eapply F2_la_lookup; eauto.
+Qed.
+
+Lemma product_closure : forall sgn i idd hermd js jop t4 w4 l4,
+  product_terms sgn i idd hermd jop js = Ok (t4, w4, l4) ->
+  forall st, In st t4 -> forall l, In l (labels_of st) -> exists e, In (l, e) w4.
+Proof.
+  intros sgn i idd hermd. induction js as [|[[f c] p] js IH]; intros jop t4 w4 l4 H st Hst l Hl.
+  - simpl in H. inversion H; subst. contradiction.
+  - cbn [product_terms] in H.
+    bind_inv H. rename x into padj. bind_inv H. destruct x as [[pm jop'] lg1]. cbn [fst snd] in H.
+    bind_inv H. rename x into pmt. bind_inv H. rename x into tw. bind_inv H. destruct x as [[tr0 wr] lr].
+    cbn [fst snd] in H. injection H as Ht Hw4 Hl4. subst t4 w4 l4.
+    apply local_action_F2 in E1.
+    assert (Hpm : forall m, In m (map snd pm) -> exists e b, dget m jop' = Some e /\ mget e (j_sym i) = Some b).
+    { intros m Hm. destruct (la_labels_l _ _ _ _ _ E1 Hm) as [b Hb].
+      destruct (dget m jop') as [e|]; [|discriminate]. eauto. }
+    destruct Hst as [<-|[<-|Hst]].
+    + unfold labels_of in Hl. cbn [st_ket st_bra map] in Hl. rewrite app_nil_r in Hl.
+      destruct (Hpm _ Hl) as [e [b [He _]]]. exists e. apply in_or_app. left. apply dget_In. exact He.
+    + unfold labels_of in Hl. cbn [st_ket st_bra map app] in Hl.
+      destruct (la_labels _ _ _ _ _ E1 Hl) as [m [b [Hm [Hb ->]]]].
+      destruct (dget m jop') as [e|] eqn:Em; [|discriminate].
+      destruct b.
+      * exists e. apply in_or_app. left. apply dget_In. exact Em.
+      * destruct (transpose_writes_In _ _ _ E2 m e (dget_In _ _ _ Em)) as [b' [Hb' Hin]].
+        rewrite Hb in Hb'. inversion Hb'; subst b'. exists (MT e).
+        apply in_or_app. right. apply in_or_app. left. auto.
+    + destruct (IH _ _ _ _ E3 st Hst l Hl) as [e He]. exists e.
+      apply in_or_app. right. apply in_or_app. now right.
+Qed.
+
+Lemma closure_struct : forall sgn i g,
+  generate_struct sgn i = Ok g ->
+  forall st, In st (g_terms g) -> forall l, In l (labels_of st) -> exists e, In (l, e) (g_writes g).
+Proof.
+  intros sgn i g Hgen st Hst l Hl. unfold generate_struct in Hgen.
+  bind_inv Hgen. rename x into t2. bind_inv Hgen. rename x into t3.
+  bind_inv Hgen. destruct x as [[t4 w4] l4]. cbn [fst snd] in Hgen. injection Hgen as Hg. subst g.
+  cbn [g_terms g_writes] in *.
+  apply ham_bra_terms_F2 in E. apply jump_terms_F2 in E0.
+  assert (Hh : forall t l0, In t (h_terms i) -> In l0 (map snd (snd t)) -> exists b, In (l0, b) (h_conv i)).
+  { intros t l0 Ht Hl0. destruct (Forall2_In_l _ _ _ _ E Ht) as [st' [_ [_ [_ [_ Hla]]]]].
+    apply local_action_F2 in Hla. destruct (la_labels_l _ _ _ _ _ Hla Hl0) as [b Hb].
+    exists b. apply dget_In. exact Hb. }
+  assert (Hj : forall t l0, In t (map deal (j_ops i)) -> In l0 (map snd (snd t)) -> exists fl, In (l0, fl) (j_dict i)).
+  { intros t l0 Ht Hl0. destruct (Forall2_In_l _ _ _ _ E0 Ht) as [st' [_ [_ [_ [_ Hla]]]]].
+    apply local_action_F2 in Hla. destruct (la_labels_l _ _ _ _ _ Hla Hl0) as [b Hb].
+    rewrite dget_map_snd in Hb. destruct (dget l0 (j_dict i)) as [fl|] eqn:El; [|discriminate].
+    exists fl. apply dget_In. exact El. }
+  apply in_app_or in Hst. destruct Hst as [Hst|Hst].
+  - (* Hamiltonian, ket copy *)
+    unfold ham_ket_terms in Hst. apply in_map_iff in Hst. destruct Hst as [[[f c] p] [<- Ht]].
+    unfold labels_of in Hl. cbn [st_ket st_bra map] in Hl. rewrite app_nil_r in Hl.
+    destruct (Hh _ _ Ht Hl) as [b Hb]. exists (MBase SHam l). apply in_or_app. left. eapply in_base_writes; eauto.
+  - apply in_app_or in Hst. destruct Hst as [Hst|Hst].
+    + (* Hamiltonian, bra copy *)
+      destruct (Forall2_In_r _ _ _ _ E Hst) as [t [Ht [_ [_ [Hk Hla]]]]].
+      unfold labels_of in Hl. rewrite Hk in Hl. cbn [map app] in Hl.
+      apply local_action_F2 in Hla. destruct (la_labels _ _ _ _ _ Hla Hl) as [m [b [Hm [Hb ->]]]].
+      apply dget_In in Hb. destruct b.
+      * exists (MBase SHam m). apply in_or_app. left. eapply in_base_writes; eauto.
+      * exists (MT (MBase SHam m)). apply in_or_app. right. apply in_or_app. left. apply in_ham_T_writes. exact Hb.
+    + apply in_app_or in Hst. destruct Hst as [Hst|Hst].
+      * (* jump terms *)
+        destruct (Forall2_In_r _ _ _ _ E0 Hst) as [t [Ht [_ [_ [Hk Hla]]]]].
+        unfold labels_of in Hl. rewrite Hk in Hl. apply in_app_or in Hl. destruct Hl as [Hl|Hl].
+        -- destruct (Hj _ _ Ht Hl) as [fl Hfl]. exists (MBase SJump l).
+           apply in_or_app. right. apply in_or_app. right. apply in_or_app. right. apply in_or_app. left.
+           eapply in_base_writes; eauto.
+        -- apply local_action_F2 in Hla. destruct (la_labels _ _ _ _ _ Hla Hl) as [m [b [Hm [Hb ->]]]].
+           rewrite dget_map_snd in Hb. destruct (dget m (j_dict i)) as [fl|] eqn:El; [|discriminate].
+           simpl in Hb. inversion Hb; subst b. apply dget_In in El. destruct (f_real fl) eqn:Er.
+           ++ exists (MBase SJump m).
+              apply in_or_app. right. apply in_or_app. right. apply in_or_app. right. apply in_or_app. left.
+              eapply in_base_writes; eauto.
+           ++ exists (MConj (MBase SJump m)).
+              apply in_or_app. right. apply in_or_app. right. apply in_or_app. left.
+              eapply in_conj_writes; eauto.
+      * (* products *)
+        destruct (product_closure _ _ _ _ _ _ _ _ _ E1 st Hst l Hl) as [e He]. exists e.
+        apply in_or_app. right. apply in_or_app. right. apply in_or_app. right. apply in_or_app. now right.
+Qed.
+
+(* every operator label of a generated term is a key of the generated conversion dictionary *)
+Theorem label_closure : forall sgn i ts conv co,
+  generate sgn i = Ok (ts, conv, co) ->
+  forall t, In t ts -> forall k l, In (k, l) (snd t) -> dmem l conv = true.
+Proof.
+  intros sgn i ts conv co H t Ht k l Hkl. unfold generate in H. bind_inv H. rename x into g.
+  injection H as Hts Hconv Hco. subst ts conv co.
+  apply in_map_iff in Ht. destruct Ht as [st [<- Hst]]. unfold render in Hkl. cbn [snd] in Hkl.
+  assert (Hl : In l (labels_of st)).
+  { unfold labels_of. apply in_app_or in Hkl. apply in_or_app.
+    destruct Hkl as [Hkl|Hkl]; [left|right]; unfold add_suffix in Hkl; apply in_map_iff in Hkl;
+      destruct Hkl as [[s m] [Hm Hin]]; simpl in Hm; inversion Hm; subst; apply in_map_iff; exists (s, l); auto. }
+  destruct (closure_struct _ _ _ E st Hst l Hl) as [e He].
+  destruct (dupdate_mem (g_writes g) [] l e He) as [v Hv]. unfold dmem. now rewrite Hv.
+Qed.
+
+(* every coefficient name of a generated term is a key of the generated coefficient mapping,
+   provided the caller's mappings name the coefficients of the caller's terms *)
+Lemma coef_closure_struct : forall sgn i g,
+  generate_struct sgn i = Ok g ->
+  (forall t, In t (h_terms i) -> In (snd (fst t)) (h_coeffs i)) ->
+  (forall t, In t (map deal (j_ops i)) -> In (snd (fst t)) (j_coeffs i)) ->
+  forall st, In st (g_terms g) -> exists e, In (st_coef st, e) (g_cwrites g).
+Proof.
+  intros sgn i g Hgen Hh Hj st Hst. unfold generate_struct in Hgen.
+  bind_inv Hgen. rename x into t2. bind_inv Hgen. rename x into t3.
+  bind_inv Hgen. destruct x as [[t4 w4] l4]. cbn [fst snd] in Hgen. injection Hgen as Hg. subst g.
+  cbn [g_terms g_cwrites] in *.
+  apply ham_bra_terms_F2 in E. apply jump_terms_F2 in E0.
+  assert (Hjc : forall t, In t (map deal (j_ops i)) ->
+            In ((snd (fst t) ++ "*j")%string, CI (CBase SJump (snd (fst t)))) (ham_cwrites (h_coeffs i) ++ jump_cwrites (j_coeffs i))).
+  { intros t Ht. apply in_or_app. right. unfold jump_cwrites. apply in_map_iff. exists (snd (fst t)). auto. }
+  assert (Hhc : forall t, In t (h_terms i) ->
+            In (snd (fst t), CBase SHam (snd (fst t))) (ham_cwrites (h_coeffs i) ++ jump_cwrites (j_coeffs i))).
+  { intros t Ht. apply in_or_app. left. right. apply in_map_iff. exists (snd (fst t)). auto. }
+  apply in_app_or in Hst. destruct Hst as [Hst|Hst].
+  - unfold ham_ket_terms in Hst. apply in_map_iff in Hst. destruct Hst as [[[f c] p] [<- Ht]].
+    eexists. apply (Hhc _ Ht).
+  - apply in_app_or in Hst. destruct Hst as [Hst|Hst].
+    + destruct (Forall2_In_r _ _ _ _ E Hst) as [t [Ht [_ [Hc _]]]]. rewrite Hc. eexists. apply (Hhc _ Ht).
+    + apply in_app_or in Hst. destruct Hst as [Hst|Hst].
+      * destruct (Forall2_In_r _ _ _ _ E0 Hst) as [t [Ht [_ [Hc _]]]]. rewrite Hc. eexists. apply (Hjc _ Ht).
+      * assert (G : forall js jop t4' w4' l4', product_terms sgn i (snd (init_jop (j_dict i)))
+                      (map (fun kv => (fst kv, f_herm (snd kv))) (j_dict i)) jop js = Ok (t4', w4', l4') ->
+                    forall st', In st' t4' -> exists t, In t js /\ st_coef st' = (snd (fst t) ++ "*j")%string).
+        { clear. induction js as [|[[f c] p] js IH]; intros jop t4' w4' l4' H st' Hst'.
+          - simpl in H. inversion H; subst. contradiction.
+          - cbn [product_terms] in H.
+            bind_inv H. bind_inv H. destruct x0 as [[pm jop'] lg1]. cbn [fst snd] in H.
+            bind_inv H. bind_inv H. bind_inv H. destruct x2 as [[tr0 wr] lr].
+            cbn [fst snd] in H. injection H as Ht Hw4 Hl4. subst t4' w4' l4'.
+            destruct Hst' as [<-|[<-|Hst']].
+            + exists (f, c, p). split; [now left|reflexivity].
+            + exists (f, c, p). split; [now left|reflexivity].
+            + destruct (IH _ _ _ _ E3 st' Hst') as [t [H1 H2]]. exists t. split; [now right|assumption]. }
+        destruct (G _ _ _ _ _ E1 st Hst) as [t [Ht Hc]]. rewrite Hc. eexists. apply (Hjc _ Ht).
 Qed.
 
 (* ============================================================================================ *)
@@ -286,6 +496,9 @@ Section Laws.
 
   (* sums *)
   Local Notation msum := (msum A).
+
+  Lemma msum_cons : forall x xs, msum (x :: xs) = x +m msum xs.
+  Proof. reflexivity. Qed.
 
   Lemma msum_app : forall xs ys, msum (xs ++ ys) = msum xs +m msum ys.
   Proof.
@@ -451,4 +664,652 @@ Section Laws.
       rewrite <- !emb_H. apply emb_comm. assumption.
   Qed.
 
+
+  (* ---- denotation of the generated terms ------------------------------------------------- *)
+  Section Den.
+  Variables (hval jval : label -> L) (hcoef jcoef : cname -> C).
+  Variable val : label -> L.
+  Variable cval : cname -> C.
+  Variable rho : M.
+  Local Notation meval := (meval A hval jval).
+  Local Notation ceval := (ceval A hcoef jcoef).
+  Local Notation denote := (denote A val cval).
+  Local Notation denote_all := (denote_all A val cval).
+  Local Notation msub := (msub A).
+  Local Notation ham_op := (ham_op A hval hcoef).
+
+  Lemma denote_ket_only : forall f c p,
+    denote {| st_frac := f; st_coef := c; st_ket := p; st_bra := [] |} rho
+    = (qC A f *c cval c) o (tpval val p *m rho).
+  Proof. intros. unfold Sym.denote. simpl. now rewrite mT_1, mmul_1_r. Qed.
+
+  Lemma denote_bra_only : forall f c p,
+    denote {| st_frac := f; st_coef := c; st_ket := []; st_bra := p |} rho
+    = (qC A f *c cval c) o (rho *m mT A (tpval val p)).
+  Proof. intros. unfold Sym.denote. simpl. now rewrite mmul_1_l. Qed.
+
+  Lemma denote_all_app : forall xs ys, denote_all (xs ++ ys) rho = denote_all xs rho +m denote_all ys rho.
+  Proof. intros. unfold Sym.denote_all. rewrite map_app. apply msum_app. Qed.
+
+  Lemma qC_neg1 : forall f, qC A (-1 * f)%Q = -c 1c *c qC A f.
+  Proof.
+    intros f. rewrite (qC_proper (-1 * f)%Q (- f)%Q) by ring. rewrite qC_opp. ring.
+  Qed.
+
+  (* -- Hamiltonian part -- *)
+  Definition ket_of (t : term) : sterm :=
+    let '(f, c, p) := t in {| st_frac := f; st_coef := c; st_ket := p; st_bra := [] |}.
+
+  Section HamPart.
+    Variable symd : dict bool.
+    Variable ts : list term.
+    Hypothesis Hnd : forall t, In t ts -> NoDup (map fst (snd t)).
+    Hypothesis Hlab : forall t s l b, In t ts -> In (s, l) (snd t) -> dget l symd = Some b ->
+      val l = hval l /\ (b = true -> lT A (hval l) = hval l) /\
+      (b = false -> val (l ++ "_T")%string = lT A (hval l)).
+    Hypothesis Hco : forall t, In t ts -> cval (snd (fst t)) = hcoef (snd (fst t)).
+
+    Lemma ham_ket_sum : forall ts', incl ts' ts -> (forall t, In t ts' -> exists st, bra_rel symd t st) ->
+      denote_all (map ket_of ts') rho
+      = msum (map (fun t : term => (qC A (fst (fst t)) *c hcoef (snd (fst t))) o (tpval hval (snd t) *m rho)) ts').
+    Proof.
+      induction ts' as [|[[f c] p] r IH]; intros Hin Hbra; [reflexivity|].
+      unfold Sym.denote_all in *. simpl map. simpl msum. rewrite IH.
+      - f_equal. rewrite denote_ket_only. simpl.
+        assert (I0 : In (f, c, p) ts) by (apply Hin; now left).
+        pose proof (Hco _ I0) as Hc0. simpl in Hc0. rewrite Hc0. f_equal. f_equal.
+        apply tpval_ext. intros s l Hsl.
+        destruct (Hbra (f, c, p)) as [st [_ [_ [_ Hla]]]]; [now left|]. simpl in Hla.
+        apply local_action_F2 in Hla.
+        destruct (F2_la_lookup _ _ _ _ s l Hla Hsl) as [b Hb].
+        destruct (Hlab (f, c, p) s l b I0 Hsl Hb) as [H1 _]. exact H1.
+      - intros t Ht. apply Hin. now right.
+      - intros t Ht. apply Hbra. now right.
+    Qed.
+
+    Lemma ham_bra_sum : forall ts' t2, incl ts' ts -> Forall2 (bra_rel symd) ts' t2 ->
+      denote_all t2 rho
+      = msum (map (fun t : term => (qC A (-1 * fst (fst t))%Q *c hcoef (snd (fst t))) o (rho *m tpval hval (snd t))) ts').
+    Proof.
+      intros ts' t2 Hin HF. induction HF as [|[[f c] p] st r r2 [Hf [Hc [Hk Hla]]] HF IH]; [reflexivity|].
+      unfold Sym.denote_all in *. simpl map. simpl msum. rewrite IH by (intros t Ht; apply Hin; now right).
+      f_equal. destruct st as [sf sc sk sb]. simpl in *. subst sf sc sk.
+      rewrite denote_bra_only.
+      assert (I0 : In (f, c, p) ts) by (apply Hin; now left).
+      pose proof (Hco _ I0) as Hc0. simpl in Hc0. rewrite Hc0. f_equal. f_equal.
+      apply local_action_F2 in Hla.
+      apply (tpval_T hval val p sb); [apply (Hnd _ I0)|].
+      eapply F2_impl_In; [exact Hla|].
+      intros [s l] [s' l'] Hsl [H1 [b [Hb H2]]]. simpl in *. split; [exact H1|]. subst l'.
+      destruct (Hlab (f, c, p) s l b I0 Hsl Hb) as [Hv [Ht Hf]].
+      destruct b; [rewrite Hv; symmetry; auto|auto].
+    Qed.
+
+    Lemma ham_algebra :
+      msub (ham_op ts *m rho) (rho *m ham_op ts)
+      = msum (map (fun t : term => (qC A (fst (fst t)) *c hcoef (snd (fst t))) o (tpval hval (snd t) *m rho)) ts)
+        +m msum (map (fun t : term => (qC A (-1 * fst (fst t))%Q *c hcoef (snd (fst t))) o (rho *m tpval hval (snd t))) ts).
+    Proof.
+      unfold Sym.msub, Sym.ham_op. f_equal.
+      - rewrite msum_mul_r, map_map. apply msum_ext. intros t _. apply smul_mul_l.
+      - rewrite mopp_smul, msum_mul_l, msum_smul, !map_map. apply msum_ext. intros t _.
+        rewrite smul_mul_r, smul_smul. f_equal. rewrite qC_neg1. ring.
+    Qed.
+
+    Lemma ham_part : forall t2, Forall2 (bra_rel symd) ts t2 ->
+      denote_all (map ket_of ts ++ t2) rho = msub (ham_op ts *m rho) (rho *m ham_op ts).
+    Proof.
+      intros t2 HF. rewrite denote_all_app, ham_algebra.
+      rewrite (ham_bra_sum ts t2 (incl_refl _) HF). f_equal.
+      apply ham_ket_sum; [apply incl_refl|].
+      intros t Ht. clear - HF Ht. induction HF; [contradiction|]. destruct Ht as [<-|Ht]; eauto.
+    Qed.
+  End HamPart.
+
+
+  (* -- jump operator terms L (x) conj L -- *)
+  Section JumpPart.
+    Variable reald : dict bool.
+    Variable js : list term.
+    Hypothesis Hlabj : forall t s l b, In t js -> In (s, l) (snd t) -> dget l reald = Some b ->
+      val l = jval l /\ (b = true -> lconj A (jval l) = jval l) /\
+      (b = false -> val (l ++ "_conj")%string = lconj A (jval l)).
+    Hypothesis Hcoj : forall t, In t js ->
+      cval (snd (fst t) ++ "*j")%string = ci A *c jcoef (snd (fst t)).
+
+    Lemma jump_sum1 : forall js' t3, incl js' js -> Forall2 (jump_rel reald) js' t3 ->
+      denote_all t3 rho
+      = msum (map (fun t : term => (qC A (fst (fst t)) *c (ci A *c jcoef (snd (fst t))))
+                                 o (tpval jval (snd t) *m rho *m mH A (tpval jval (snd t)))) js').
+    Proof.
+      intros js' t3 Hin HF. induction HF as [|[[f c] p] st r r2 [Hf [Hc [Hk Hla]]] HF IH]; [reflexivity|].
+      unfold Sym.denote_all in *. simpl map. simpl msum. rewrite IH by (intros t Ht; apply Hin; now right).
+      f_equal. destruct st as [sf sc sk sb]. simpl in *. subst sf sc sk.
+      unfold Sym.denote. simpl.
+      assert (I0 : In (f, c, p) js) by (apply Hin; now left).
+      pose proof (Hcoj _ I0) as Hc0. simpl in Hc0. rewrite Hc0.
+      apply local_action_F2 in Hla.
+      f_equal. f_equal; [f_equal|].
+      - apply tpval_ext. intros s l Hsl.
+        destruct (F2_la_lookup _ _ _ _ s l Hla Hsl) as [b Hb].
+        destruct (Hlabj (f, c, p) s l b I0 Hsl Hb) as [H1 _]. exact H1.
+      - apply (tpval_conj_T jval val p sb).
+        eapply F2_impl_In; [exact Hla|].
+        intros [s l] [s' l'] Hsl [H1 [b [Hb H2]]]. simpl in *. split; [exact H1|]. subst l'.
+        destruct (Hlabj (f, c, p) s l b I0 Hsl Hb) as [Hv [Ht Hf]].
+        destruct b; [rewrite Hv; symmetry; auto|auto].
+    Qed.
+  End JumpPart.
+
+  (* -- products L^dagger L on the ket copy and their transposes on the bra copy -- *)
+  Section ProdPart.
+    Variable i : input.
+    Let jd := j_dict i.
+    Let hermd : dict bool := map (fun kv => (fst kv, f_herm (snd kv))) jd.
+    Let idd : dict bool := snd (init_jop jd).
+    Hypothesis Hbase : forall X fl, In (X, fl) jd -> val X = jval X.
+    Hypothesis Hadj : forall X fl, In (X, fl) jd -> f_id fl = false -> f_herm fl = false ->
+      val (X ++ "_H")%string = lH A (jval X).
+    Hypothesis Hherm_sound : forall X fl, In (X, fl) jd -> f_herm fl = true -> lH A (jval X) = jval X.
+    Hypothesis Hid_sound : forall X fl, In (X, fl) jd -> f_id fl = true -> jval X = l1 A.
+    Hypothesis Hid_herm : forall X fl, In (X, fl) jd -> f_id fl = true -> f_herm fl = true.
+    Hypothesis Hsym_sound : forall e, mget e (j_sym i) = Some true -> lT A (meval e) = meval e.
+
+    Lemma idd_true : forall k, dget k idd = Some true -> exists fl, dget k jd = Some fl /\ f_id fl = true.
+    Proof.
+      intros k H. unfold idd, init_jop in H.
+      assert (G : forall l (st : dict mexp * dict bool),
+                 dget k (snd (fold_left (fun (st : dict mexp * dict bool) (kv : string * jflags) =>
+                     if negb (f_id (snd kv)) && negb (f_herm (snd kv))
+                     then (dset (fst kv ++ "_H")%string (MH (MBase SJump (fst kv))) (fst st),
+                           dset (fst kv ++ "_H")%string false (snd st))
+                     else st) l st)) = Some true -> dget k (snd st) = Some true).
+      { induction l as [|kv l IH]; simpl; intros st Hst; [exact Hst|].
+        apply IH in Hst. destruct (negb (f_id (snd kv)) && negb (f_herm (snd kv))); [|exact Hst].
+        simpl in Hst. apply dget_dset in Hst. destruct Hst as [[_ Hst]|Hst]; [discriminate|exact Hst]. }
+      apply G in H. simpl in H. rewrite dget_map_snd in H.
+      destruct (dget k jd) as [fl|]; simpl in H; [|discriminate]. exists fl. split; [reflexivity|congruence].
+    Qed.
+
+    Lemma hermd_get : forall X b, dget X hermd = Some b -> exists fl, dget X jd = Some fl /\ f_herm fl = b.
+    Proof.
+      intros X b H. unfold hermd in H. rewrite dget_map_snd in H.
+      destruct (dget X jd) as [fl|]; simpl in H; [|discriminate]. exists fl. split; [reflexivity|congruence].
+    Qed.
+
+    Definition site_rel (kv kv' : string * label) : Prop :=
+      fst kv' = fst kv /\
+      emb A (fst kv) (val (snd kv')) = mH A (emb A (fst kv) (jval (snd kv))) *m emb A (fst kv) (jval (snd kv)).
+
+    Lemma lookup_Ok : forall {V} k (d : dict V) v, lookup k d = Ok v -> dget k d = Some v.
+    Proof. unfold lookup. intros V k d v H. destruct (dget k d); [now inversion H|discriminate]. Qed.
+
+    Lemma multiply_loop_spec : forall (P : tp) psuf self,
+      Forall2 (la_rel (fun l => dget l hermd) "_H") psuf self ->
+      (forall s X, In (s, X) psuf -> dget s P = Some X) ->
+      forall conv res conv' lg,
+      multiply_loop self P idd conv = Ok (res, conv', lg) ->
+      (forall k e, dget k conv = Some e -> val k = meval e) ->
+      (forall k e, In (k, e) lg -> val k = meval e) ->
+      (forall k e, dget k conv' = Some e -> val k = meval e) /\ Forall2 site_rel psuf res.
+    Proof.
+      intros P psuf self HF. induction HF as [|[s X] [s' oa] psuf self [H1 [b [Hb H2]]] HF IH];
+        intros HP conv res conv' lg Hm Hinv Hlg.
+      - simpl in Hm. inversion Hm; subst. split; [assumption|constructor].
+      - simpl in H1, Hb, H2. subst s'. cbn [multiply_loop] in Hm.
+        rewrite (HP s X (or_introl eq_refl)) in Hm.
+        assert (HP' : forall s0 X0, In (s0, X0) psuf -> dget s0 P = Some X0) by (intros; apply HP; now right).
+        destruct (hermd_get _ _ Hb) as [fl [Hfl Hhb]].
+        pose proof (dget_In _ _ _ Hfl) as Ifl.
+        pose proof (Hbase _ _ Ifl) as HvX.
+        bind_inv Hm. apply lookup_Ok in E. destruct x as [|].
+        + (* the adjoint factor is flagged as identity: the product is the other factor *)
+          bind_inv Hm. destruct x as [[res0 conv0] lg0]. cbn [fst snd] in Hm. injection Hm as Hr Hc Hl. subst res conv' lg.
+          destruct (IH HP' _ _ _ _ E0 Hinv Hlg) as [Hc' HF'].
+          split; [exact Hc'|]. constructor; [|exact HF']. split; [reflexivity|]. cbn [fst snd].
+          rewrite HvX.
+          destruct (idd_true _ E) as [fl' [Hfl' Hid']]. pose proof (dget_In _ _ _ Hfl') as Ifl'.
+          destruct b; simpl in H2; subst oa.
+          * rewrite Hfl in Hfl'. inversion Hfl'; subst fl'.
+            rewrite (Hid_sound _ _ Ifl Hid'), emb_1, mH_1, mmul_1_l. reflexivity.
+          * assert (Hidf : f_id fl = false).
+            { destruct (f_id fl) eqn:Ef; [|reflexivity]. rewrite (Hid_herm _ _ Ifl Ef) in Hhb. discriminate. }
+            pose proof (Hadj _ _ Ifl Hidf Hhb) as HvH.
+            rewrite (Hbase _ _ Ifl'), (Hid_sound _ _ Ifl' Hid') in HvH.
+            assert (E1 : emb A s (jval X) = 1m).
+            { rewrite <- (mH_invol (emb A s (jval X))), <- emb_H, <- HvH, emb_1. apply mH_1. }
+            rewrite E1, mH_1, mmul_1_l. reflexivity.
+        + bind_inv Hm. apply lookup_Ok in E0. destruct x as [|].
+          * (* impossible: the factor is an identity but its adjoint is not *)
+            exfalso. destruct (idd_true _ E0) as [fl' [Hfl' Hid']].
+            rewrite Hfl in Hfl'. inversion Hfl'; subst fl'.
+            rewrite (Hid_herm _ _ Ifl Hid') in Hhb. subst b. simpl in H2. subst oa. rewrite E in E0. discriminate.
+          * bind_inv Hm. apply lookup_Ok in E1. bind_inv Hm. apply lookup_Ok in E2.
+            bind_inv Hm. destruct x1 as [[res0 conv0] lg0]. cbn [fst snd] in Hm. injection Hm as Hr Hc Hl. subst res conv' lg.
+            assert (Hlab : val ((oa ++ "_mult_") ++ X)%string = lmul A (val oa) (val X)).
+            { rewrite (Hlg _ (MMul x x0)) by now left. simpl.
+              rewrite <- (Hinv _ _ E1), <- (Hinv _ _ E2). reflexivity. }
+            destruct (IH HP' _ _ _ _ E3) as [Hc' HF'].
+            { intros k e Hk. apply dget_dset in Hk. destruct Hk as [[-> ->]|Hk]; [|auto].
+              apply Hlg. now left. }
+            { intros k e Hk. apply Hlg. now right. }
+            split; [exact Hc'|]. constructor; [|exact HF']. split; [reflexivity|]. cbn [fst snd].
+            rewrite Hlab, emb_mul, HvX. f_equal.
+            destruct b; simpl in H2.
+            -- subst oa. rewrite HvX. rewrite <- emb_H, (Hherm_sound _ _ Ifl Hhb). reflexivity.
+            -- assert (Hidf : f_id fl = false).
+               { destruct (f_id fl) eqn:Ef; [|reflexivity]. rewrite (Hid_herm _ _ Ifl Ef) in Hhb. discriminate. }
+               subst oa. rewrite (Hadj _ _ Ifl Hidf Hhb). apply emb_H.
+    Qed.
+
+
+    Lemma In_keys_dmem : forall {V} (d : dict V) k, In k (map fst d) -> dmem k d = true.
+    Proof.
+      intros V d k H. apply in_map_iff in H. destruct H as [[k' v] [<- H]].
+      destruct (In_dget_some _ _ _ H) as [v' Hv]. unfold dmem. simpl. now rewrite Hv.
+    Qed.
+
+    Lemma multiply_spec : forall p padj jop pm jop' lg,
+      NoDup (map fst p) ->
+      Forall2 (la_rel (fun l => dget l hermd) "_H") p padj ->
+      multiply padj p idd jop = Ok (pm, jop', lg) ->
+      (forall k e, dget k jop = Some e -> val k = meval e) ->
+      (forall k e, In (k, e) lg -> val k = meval e) ->
+      (forall k e, dget k jop' = Some e -> val k = meval e) /\ Forall2 site_rel p pm.
+    Proof.
+      intros p padj jop pm jop' lg Hnd HF Hm Hinv Hlg. unfold multiply in Hm.
+      bind_inv Hm. destruct x as [[res c'] l0]. cbn [fst snd] in Hm. injection Hm as Hr Hc Hl. subst c' l0.
+      destruct (multiply_loop_spec p p padj HF (fun s X => In_dget_NoDup p s X Hnd) _ _ _ _ E Hinv Hlg) as [Hc' HF'].
+      split; [exact Hc'|].
+      assert (Hk : map fst res = map fst p).
+      { eapply F2_fst; [exact HF'|]. intros a b [H _]. exact H. }
+      assert (Hnoop : forall (other acc : tp), (forall kv, In kv other -> dmem (fst kv) acc = true) ->
+                fold_left (fun a kv => if dmem (fst kv) a then a else (a ++ [kv])%list) other acc = acc).
+      { clear. induction other as [|kv other IH]; simpl; intros acc H; [reflexivity|].
+        rewrite (H kv) by now left. apply IH. intros; apply H; now right. }
+      rewrite Hnoop in Hr; [subst pm; exact HF'|].
+      intros kv Hkv. apply In_keys_dmem. rewrite Hk. apply in_map. exact Hkv.
+    Qed.
+
+    Definition prod_summand (sgn : bool) (t : term) : M :=
+      let f := fst (fst t) in
+      let g := ci A *c jcoef (snd (fst t)) in
+      let Lk := tpval jval (snd t) in
+      let LL := mH A Lk *m Lk in
+      (qC A (-1 * f / 2)%Q *c g) o (LL *m rho)
+      +m (qC A (if sgn then (-1 * (-1 * f / 2))%Q else (-1 * f / 2)%Q) *c g) o (rho *m LL).
+
+    Lemma product_sum : forall sgn js jop t4 w4 l4,
+      product_terms sgn i idd hermd jop js = Ok (t4, w4, l4) ->
+      (forall t, In t js -> NoDup (map fst (snd t))) ->
+      (forall t, In t js -> cval (snd (fst t) ++ "*j")%string = ci A *c jcoef (snd (fst t))) ->
+      (forall k e, dget k jop = Some e -> val k = meval e) ->
+      (forall k e, In (k, e) w4 -> val k = meval e) ->
+      (forall k e, In (k, e) l4 -> val k = meval e) ->
+      denote_all t4 rho = msum (map (prod_summand sgn) js).
+    Proof.
+      intros sgn. induction js as [|[[f c] p] js IH]; intros jop t4 w4 l4 H Hnd Hco Hinv Hw Hl.
+      - simpl in H. inversion H. reflexivity.
+      - cbn [product_terms] in H.
+        bind_inv H. rename x into padj. bind_inv H. destruct x as [[pm jop'] lg1]. cbn [fst snd] in H.
+        bind_inv H. rename x into pmt. bind_inv H. rename x into tw. bind_inv H. destruct x as [[tr0 wr] lr].
+        cbn [fst snd] in H. injection H as Ht Hw4 Hl4. subst t4 w4 l4.
+        assert (I0 : In (f, c, p) ((f, c, p) :: js)) by now left.
+        pose proof (Hnd _ I0) as Hndp. cbn [snd] in Hndp.
+        apply local_action_F2 in E.
+        destruct (multiply_spec p padj jop pm jop' lg1 Hndp E E0 Hinv) as [Hinv' HF'].
+        { intros k e Hk. apply Hl. apply in_or_app. now left. }
+        unfold Sym.denote_all in *. cbn [map]. rewrite !msum_cons.
+        rewrite (IH jop' tr0 wr lr E3).
+        + rewrite madd_assoc. f_equal. unfold prod_summand. cbn [fst snd].
+          rewrite denote_ket_only, denote_bra_only.
+          pose proof (Hco _ I0) as Hc0. cbn [fst snd] in Hc0. rewrite Hc0.
+          assert (EL : tpval val pm = mH A (tpval jval p) *m tpval jval p).
+          { apply tpval_LdL; [exact Hndp|]. exact HF'. }
+          assert (ET : mT A (tpval val pmt) = tpval val pm).
+          { apply local_action_F2 in E1. apply tpval_T.
+            - erewrite F2_fst; [exact Hndp|exact HF'|]. intros a b [Hab _]. exact Hab.
+            - eapply F2_impl_In; [exact E1|].
+              intros [s m] [s' m'] Hsm [H1 [b [Hb H2]]]. cbn [fst snd] in *. split; [exact H1|]. subst m'.
+              destruct (dget m jop') as [e|] eqn:Em; [|discriminate].
+              destruct b; cbv iota.
+              + rewrite (Hinv' _ _ Em). symmetry. apply Hsym_sound. exact Hb.
+              + destruct (transpose_writes_In _ _ _ E2 m e (dget_In _ _ _ Em)) as [b' [Hb' Hin]].
+                rewrite Hb in Hb'. inversion Hb'; subst b'.
+                rewrite (Hw _ (MT e)); [cbn [Sym.meval]; rewrite (Hinv' _ _ Em); reflexivity|].
+                apply in_or_app. right. apply in_or_app. left. auto. }
+          rewrite ET, EL. destruct sgn; reflexivity.
+        + intros t Ht. apply Hnd. now right.
+        + intros t Ht. apply Hco. now right.
+        + exact Hinv'.
+        + intros k e Hk. apply Hw. apply in_or_app. right. apply in_or_app. now right.
+        + intros k e Hk. apply Hl. apply in_or_app. now right.
+    Qed.
+
+    Lemma init_jop_entries : forall k e, dget k (fst (init_jop jd)) = Some e ->
+      In (k, e) (base_writes SJump jd) \/ In (k, e) (adj_writes jd).
+    Proof.
+      intros k e H. unfold init_jop in H.
+      assert (G : forall l (st : dict mexp * dict bool),
+                 dget k (fst (fold_left (fun (st : dict mexp * dict bool) (kv : string * jflags) =>
+                     if negb (f_id (snd kv)) && negb (f_herm (snd kv))
+                     then (dset (fst kv ++ "_H")%string (MH (MBase SJump (fst kv))) (fst st),
+                           dset (fst kv ++ "_H")%string false (snd st))
+                     else st) l st)) = Some e -> dget k (fst st) = Some e \/ In (k, e) (adj_writes l)).
+      { induction l as [|kv l IHl]; simpl; intros st Hst; [now left|].
+        apply IHl in Hst. unfold adj_writes. simpl.
+        destruct (negb (f_id (snd kv)) && negb (f_herm (snd kv))).
+        - destruct Hst as [Hst|Hst]; [|right; apply in_or_app; now right].
+          simpl in Hst. apply dget_dset in Hst. destruct Hst as [[-> ->]|Hst]; [right; now left|now left].
+        - destruct Hst as [Hst|Hst]; [now left|right; exact Hst]. }
+      apply G in H. destruct H as [H|H]; [left|now right].
+      simpl in H. apply dget_In in H. exact H.
+    Qed.
+  End ProdPart.
+
+  (* -- the algebra of one dissipator -- *)
+  Lemma qC_half_neg : forall f, qC A (-1 * f / 2)%Q = -c 1c *c (qC A f *c qC A (1 # 2)).
+  Proof.
+    intros f. rewrite (qC_proper (-1 * f / 2)%Q (- (f * (1 # 2)))%Q).
+    - rewrite qC_opp, qC_mul. ring.
+    - unfold Qdiv. change (Qinv 2%Q) with (1 # 2)%Q. ring.
+  Qed.
+
+  Lemma qC_half_pos : forall f, qC A (-1 * (-1 * f / 2))%Q = qC A f *c qC A (1 # 2).
+  Proof.
+    intros f. rewrite (qC_proper (-1 * (-1 * f / 2))%Q (f * (1 # 2))%Q).
+    - apply qC_mul.
+    - unfold Qdiv. change (Qinv 2%Q) with (1 # 2)%Q. ring.
+  Qed.
+
+  Lemma dissipator_algebra : forall (sgn : bool) (f : Q) (g : C) (Lk : M),
+    (qC A f *c (ci A *c g)) o (Lk *m rho *m mH A Lk)
+    +m ((qC A (-1 * f / 2)%Q *c (ci A *c g)) o (mH A Lk *m Lk *m rho)
+        +m (qC A (if sgn then (-1 * (-1 * f / 2))%Q else (-1 * f / 2)%Q) *c (ci A *c g)) o (rho *m (mH A Lk *m Lk)))
+    = ci A o ((qC A f *c g) o dissipator A sgn Lk rho).
+  Proof.
+    intros sgn f g Lk. unfold dissipator, Sym.msub.
+    destruct sgn.
+    - rewrite qC_half_neg, qC_half_pos.
+      rewrite !mopp_smul, !smul_add_r, !smul_smul, madd_assoc.
+      f_equal; [f_equal|]; f_equal; ring.
+    - rewrite qC_half_neg.
+      rewrite !mopp_smul, !smul_add_r, !smul_smul, madd_assoc.
+      f_equal; [f_equal|]; f_equal; ring.
+  Qed.
+
+
+  (* ---- the generated term list denotes the Lindblad right-hand side ----------------------- *)
+  Theorem denote_generate : forall (sgn : bool) (i : input) (g : gen),
+    let js := map deal (j_ops i) in
+    generate_struct sgn i = Ok g ->
+    (* the identifiers of a tensor product (a dict) are distinct *)
+    (forall t, In t (h_terms i) -> NoDup (map fst (snd t))) ->
+    (forall t, In t js -> NoDup (map fst (snd t))) ->
+    (* every coefficient name has a value *)
+    (forall t, In t (h_terms i) -> In (snd (fst t)) (h_coeffs i)) ->
+    (forall t, In t js -> In (snd (fst t)) (j_coeffs i)) ->
+    (* soundness of the classifier flags *)
+    (forall l, In (l, true) (h_conv i) -> lT A (hval l) = hval l) ->
+    (forall X fl, In (X, fl) (j_dict i) -> f_real fl = true -> lconj A (jval X) = jval X) ->
+    (forall X fl, In (X, fl) (j_dict i) -> f_herm fl = true -> lH A (jval X) = jval X) ->
+    (forall X fl, In (X, fl) (j_dict i) -> f_id fl = true -> jval X = l1 A) ->
+    (forall X fl, In (X, fl) (j_dict i) -> f_id fl = true -> f_herm fl = true) ->
+    (forall e, mget e (j_sym i) = Some true -> lT A (meval e) = meval e) ->
+    (* the valuation agrees with every assignment made to the dictionaries *)
+    (forall l e, In (l, e) (g_log g) -> val l = meval e) ->
+    (forall c e, In (c, e) (g_cwrites g) -> cval c = ceval e) ->
+    denote_all (g_terms g) rho = lindblad_rhs A hval jval hcoef jcoef sgn (h_terms i) js rho.
+  Proof.
+    intros sgn i g js Hgen Hnd_h Hnd_j Hco_h Hco_j Hsym_h Hreal Hherm Hid Hid_herm Hsym_j Hval Hcval.
+      unfold generate_struct in Hgen.
+      bind_inv Hgen. rename x into t2. bind_inv Hgen. rename x into t3.
+      bind_inv Hgen. destruct x as [[t4 w4] l4]. cbn [fst snd] in Hgen. injection Hgen as Hg. subst g.
+      unfold g_log in Hval. cbn [g_terms g_writes g_cwrites g_jlog] in *.
+      apply ham_bra_terms_F2 in E. apply jump_terms_F2 in E0.
+      change (ham_ket_terms i) with (map ket_of (h_terms i)).
+      rewrite app_assoc, denote_all_app. unfold lindblad_rhs. f_equal.
+      - (* Hamiltonian *)
+        apply (ham_part (h_conv i) (h_terms i)); [exact Hnd_h| |intros t Ht|exact E].
+        + intros t s l b Ht Hsl Hb. apply dget_In in Hb.
+          assert (Hv : val l = hval l).
+          { apply (Hval l (MBase SHam l)). apply in_or_app. left. apply in_or_app. left.
+            eapply in_base_writes; eauto. }
+          split; [exact Hv|]. split.
+          * intros ->. apply Hsym_h. exact Hb.
+          * intros ->. apply (Hval _ (MT (MBase SHam l))). apply in_or_app. left.
+            apply in_or_app. right. apply in_or_app. left. apply in_ham_T_writes. exact Hb.
+        + apply (Hcval _ (CBase SHam (snd (fst t)))). right. apply in_or_app. left.
+          apply in_map_iff. exists (snd (fst t)). split; [reflexivity|]. apply Hco_h. exact Ht.
+      - (* jump operators *)
+        assert (Hcoj : forall t, In t js -> cval (snd (fst t) ++ "*j")%string = ci A *c jcoef (snd (fst t))).
+        { intros t Ht. apply (Hcval _ (CI (CBase SJump (snd (fst t))))). right. apply in_or_app. right.
+          unfold jump_cwrites. apply in_map_iff. exists (snd (fst t)). split; [reflexivity|]. apply Hco_j. exact Ht. }
+        assert (Hbase : forall X fl, In (X, fl) (j_dict i) -> val X = jval X).
+        { intros X fl HX. apply (Hval X (MBase SJump X)). apply in_or_app. right. apply in_or_app. left.
+          eapply in_base_writes; eauto. }
+        assert (Hadj : forall X fl, In (X, fl) (j_dict i) -> f_id fl = false -> f_herm fl = false ->
+                  val (X ++ "_H")%string = lH A (jval X)).
+        { intros X fl HX H1 H2. apply (Hval _ (MH (MBase SJump X))). apply in_or_app. right.
+          apply in_or_app. right. apply in_or_app. left. eapply in_adj_writes; eauto. }
+        rewrite denote_all_app.
+        rewrite (jump_sum1 (map (fun kv => (fst kv, f_real (snd kv))) (j_dict i)) js) with (js' := js) (t3 := t3);
+          [|idtac|exact Hcoj|apply incl_refl|exact E0].
+        + rewrite (product_sum i Hbase Hadj Hherm Hid Hid_herm Hsym_j sgn js _ t4 w4 l4 E1 Hnd_j Hcoj).
+          * rewrite <- msum_map_add. unfold jump_sum. rewrite msum_smul, map_map.
+            apply msum_ext. intros [[f c] p] _. unfold prod_summand. cbn [fst snd].
+            apply dissipator_algebra.
+          * intros k e Hk. destruct (init_jop_entries i k e Hk) as [H|H];
+              apply Hval; apply in_or_app; right; apply in_or_app; [left|right; apply in_or_app; left]; exact H.
+          * intros k e Hk. apply Hval. apply in_or_app. left.
+            apply in_or_app. right. apply in_or_app. right. apply in_or_app. right. apply in_or_app. right. exact Hk.
+          * intros k e Hk. apply Hval. apply in_or_app. right.
+            apply in_or_app. right. apply in_or_app. right. exact Hk.
+        + intros t s l b Ht Hsl Hb. rewrite dget_map_snd in Hb.
+          destruct (dget l (j_dict i)) as [fl|] eqn:El; [|discriminate]. simpl in Hb. inversion Hb; subst b.
+          apply dget_In in El. split; [eapply Hbase; eauto|]. split.
+          * intros Hr. eapply Hreal; eauto.
+          * intros Hr. apply (Hval _ (MConj (MBase SJump l))). apply in_or_app. left.
+            apply in_or_app. right. apply in_or_app. right. apply in_or_app. left.
+            eapply in_conj_writes; eauto.
+    Qed.
+
+  End Den.
+
+  (* ---- the generated Lindbladian read through its own dictionaries ----------------------- *)
+  Section Tables.
+    Variables (hval jval : label -> L) (hcoef jcoef : cname -> C).
+    Local Notation meval := (meval A hval jval).
+    Local Notation ceval := (ceval A hcoef jcoef).
+
+    Lemma denote_all_ext : forall v v' cv cv' ts rho,
+      (forall st, In st ts -> forall l, In l (labels_of st) -> v l = v' l) ->
+      (forall st, In st ts -> cv (st_coef st) = cv' (st_coef st)) ->
+      denote_all A v cv ts rho = denote_all A v' cv' ts rho.
+    Proof.
+      intros v v' cv cv' ts rho Hv Hc. unfold denote_all. f_equal. apply map_ext_in. intros st Hst.
+      unfold denote. rewrite (Hc st Hst).
+      assert (Hk : tpval v (st_ket st) = tpval v' (st_ket st)).
+      { apply tpval_ext. intros s l Hsl. apply (Hv st Hst). unfold labels_of. apply in_or_app. left.
+        apply in_map_iff. exists (s, l). auto. }
+      assert (Hb : tpval v (st_bra st) = tpval v' (st_bra st)).
+      { apply tpval_ext. intros s l Hsl. apply (Hv st Hst). unfold labels_of. apply in_or_app. right.
+        apply in_map_iff. exists (s, l). auto. }
+      now rewrite Hk, Hb.
+    Qed.
+
+    (* a valuation that agrees with the final table and, outside it, with the assignment log *)
+    Definition val_of (g : gen) (l : label) : L :=
+      match dget l (dupdate [] (g_writes g)) with
+      | Some e => meval e
+      | None => match dget l (g_log g) with Some e => meval e | None => l1 A end
+      end.
+    Definition cval_of (g : gen) (c : cname) : C :=
+      match dget c (dupdate [] (g_cwrites g)) with
+      | Some e => ceval e
+      | None => match dget c (g_cwrites g) with Some e => ceval e | None => 1c end
+      end.
+
+    Theorem denote_gen_rhs : forall (sgn : bool) (i : input) (g : gen) (rho : M),
+      let js := map deal (j_ops i) in
+      generate_struct sgn i = Ok g ->
+      (forall t, In t (h_terms i) -> NoDup (map fst (snd t))) ->
+      (forall t, In t js -> NoDup (map fst (snd t))) ->
+      (forall t, In t (h_terms i) -> In (snd (fst t)) (h_coeffs i)) ->
+      (forall t, In t js -> In (snd (fst t)) (j_coeffs i)) ->
+      (forall l, In (l, true) (h_conv i) -> lT A (hval l) = hval l) ->
+      (forall X fl, In (X, fl) (j_dict i) -> f_real fl = true -> lconj A (jval X) = jval X) ->
+      (forall X fl, In (X, fl) (j_dict i) -> f_herm fl = true -> lH A (jval X) = jval X) ->
+      (forall X fl, In (X, fl) (j_dict i) -> f_id fl = true -> jval X = l1 A) ->
+      (forall X fl, In (X, fl) (j_dict i) -> f_id fl = true -> f_herm fl = true) ->
+      (forall e, mget e (j_sym i) = Some true -> lT A (meval e) = meval e) ->
+      (* no label (coefficient name) is assigned two different values *)
+      (forall l e e', In (l, e) (g_log g) -> In (l, e') (g_log g) -> meval e = meval e') ->
+      (forall c e e', In (c, e) (g_cwrites g) -> In (c, e') (g_cwrites g) -> ceval e = ceval e') ->
+      denote_gen A hval jval hcoef jcoef g rho = lindblad_rhs A hval jval hcoef jcoef sgn (h_terms i) js rho.
+    Proof.
+      intros sgn i g rho js Hgen Hnd_h Hnd_j Hco_h Hco_j Hsym_h Hreal Hherm Hid Hid_herm Hsym_j Hfun Hcfun.
+      subst js.
+      rewrite <- (denote_generate hval jval hcoef jcoef (val_of g) (cval_of g) rho sgn i g Hgen
+                   Hnd_h Hnd_j Hco_h Hco_j Hsym_h Hreal Hherm Hid Hid_herm Hsym_j).
+      - unfold denote_gen. apply denote_all_ext.
+        + intros st Hst l Hl. destruct (closure_struct _ _ _ Hgen st Hst l Hl) as [e He].
+          destruct (dupdate_mem (g_writes g) [] l e He) as [v Hv].
+          unfold table_val, val_of. now rewrite Hv.
+        + intros st Hst. destruct (coef_closure_struct _ _ _ Hgen Hco_h Hco_j st Hst) as [e He].
+          destruct (dupdate_mem (g_cwrites g) [] (st_coef st) e He) as [v Hv].
+          unfold table_coef, cval_of. now rewrite Hv.
+      - intros l e He. unfold val_of.
+        destruct (dget l (dupdate [] (g_writes g))) as [e0|] eqn:E0.
+        + apply dget_dupdate in E0. destruct E0 as [E0|E0]; [|discriminate].
+          apply (Hfun l); [|exact He]. unfold g_log. apply in_or_app. now left.
+        + destruct (In_dget_some _ _ _ He) as [e1 H1]. rewrite H1. apply dget_In in H1. now apply (Hfun l).
+      - intros c e He. unfold cval_of.
+        destruct (dget c (dupdate [] (g_cwrites g))) as [e0|] eqn:E0.
+        + apply dget_dupdate in E0. destruct E0 as [E0|E0]; [|discriminate]. now apply (Hcfun c).
+        + destruct (In_dget_some _ _ _ He) as [e1 H1]. rewrite H1. apply dget_In in H1. now apply (Hcfun c).
+    Qed.
+  End Tables.
+
+  (* ---- trace ---------------------------------------------------------------------------- *)
+  Lemma smul_0_l : forall x, 0c o x = 0m.
+  Proof.
+    intros. apply madd_cancel_idem. rewrite <- smul_add_l. f_equal. ring.
+  Qed.
+
+  Lemma tr_0 : tr A 0m = 0c.
+  Proof. rewrite <- (smul_0_l 0m), tr_smul. ring. Qed.
+
+  Lemma tr_opp : forall x, tr A (-m x) = -c tr A x.
+  Proof. intros. rewrite mopp_smul, tr_smul. ring. Qed.
+
+  Lemma tr_msum_zero : forall xs, (forall x, In x xs -> tr A x = 0c) -> tr A (msum xs) = 0c.
+  Proof.
+    induction xs; simpl; intros H; [apply tr_0|].
+    rewrite tr_add, (H a) by now left. rewrite IHxs by (intros; apply H; now right). ring.
+  Qed.
+
+  Lemma dissipator_trace : forall Lk rho, tr A (dissipator A false Lk rho) = 0c.
+  Proof.
+    intros Lk rho. unfold dissipator, Sym.msub.
+    rewrite !tr_add, !tr_opp, !tr_smul.
+    rewrite (tr_cyc (Lk *m rho) (mH A Lk)), mmul_assoc.
+    rewrite (tr_cyc rho (mH A Lk *m Lk)).
+    set (t := tr A (mH A Lk *m Lk *m rho)). set (h := qC A (1 # 2)).
+    transitivity (t *c (1c +c -c (h +c h))); [ring|]. unfold h. rewrite qC_half2. ring.
+  Qed.
+
+  (* the GKSL generator annihilates the trace: d/dt tr rho = 0 *)
+  Theorem gksl_trace_zero : forall hval jval hcoef jcoef hs js rho,
+    tr A (lindblad_rhs A hval jval hcoef jcoef false hs js rho) = 0c.
+  Proof.
+    intros. unfold lindblad_rhs, Sym.msub. rewrite !tr_add, tr_opp, tr_smul.
+    rewrite (tr_cyc rho). unfold jump_sum. rewrite tr_msum_zero.
+    - ring.
+    - intros x Hx. apply in_map_iff in Hx. destruct Hx as [t [<- _]].
+      rewrite tr_smul, dissipator_trace. ring.
+  Qed.
+
+  (* ---- the dense construction ----------------------------------------------------------- *)
+  Lemma qC_neg_half : qC A (-1 # 2) = -c qC A (1 # 2).
+  Proof. rewrite <- qC_opp. apply qC_proper. reflexivity. Qed.
+
+  Lemma exact_terms_dissipator : forall (sgn : bool) (c k : C) (Lk rho : M),
+    c *c c = k -> exact_terms A sgn c Lk rho = ci A o (k o dissipator A sgn Lk rho).
+  Proof.
+    intros sgn c k Lk rho <-. unfold exact_terms, dissipator, Sym.msub.
+    destruct sgn; rewrite ?qC_neg_half, !mopp_smul, !smul_add_r, !smul_smul;
+      (f_equal; [f_equal|]); f_equal; ring.
+  Qed.
+
+  (* symbolic and dense constructions agree under rate = (dense coefficient)^2 *)
+  Theorem symbolic_eq_dense : forall hval jval hcoef jcoef (sgn : bool) hs js (cls : list (C * M)) rho,
+    Forall2 (fun (t : term) cl =>
+               snd cl = tpval jval (snd t) /\
+               fst cl *c fst cl = qC A (fst (fst t)) *c jcoef (snd (fst t))) js cls ->
+    lindblad_rhs A hval jval hcoef jcoef sgn hs js rho
+    = exact_lindbladian A sgn (ham_op A hval hcoef hs) cls rho.
+  Proof.
+    intros hval jval hcoef jcoef sgn hs js cls rho HF. unfold lindblad_rhs, exact_lindbladian. f_equal.
+    unfold jump_sum. rewrite msum_smul, map_map.
+    induction HF as [|[[f c] p] [cc Lk] js cls [H1 H2] HF IH]; [reflexivity|].
+    cbn [map fst snd] in *. rewrite !msum_cons, IH. f_equal. subst Lk.
+    symmetry. apply exact_terms_dissipator. exact H2.
+  Qed.
+
 End Laws.
+
+(* ============================================================================================ *)
+(* The instance Q(i): the laws hold, and the current sign is refuted on it                       *)
+(* ============================================================================================ *)
+Lemma G_eq : forall a b : G, fst a = fst b -> snd a = snd b -> a = b.
+Proof. intros [a1 a2] [b1 b2]; simpl; intros; now subst. Qed.
+
+Ltac g_ring := intros; repeat match goal with x : G |- _ => destruct x end;
+  apply G_eq; unfold Gadd, Gmul, Gopp, Gconj, Gid, G0, G1, Gi; simpl; ring.
+
+Lemma G_ring : ring_theory G0 G1 Gadd Gmul (fun x y => Gadd x (Gopp y)) Gopp eq.
+Proof. constructor; g_ring. Qed.
+
+Lemma Q2Qc_add : forall p q, Q2Qc (p + q) = (Q2Qc p + Q2Qc q)%Qc.
+Proof.
+  intros. unfold Qcplus. apply Q2Qc_eq_iff. simpl. now rewrite !Qred_correct.
+Qed.
+
+Lemma Q2Qc_mul : forall p q, Q2Qc (p * q) = (Q2Qc p * Q2Qc q)%Qc.
+Proof.
+  intros. unfold Qcmult. apply Q2Qc_eq_iff. simpl. now rewrite !Qred_correct.
+Qed.
+
+Lemma Gq_proper : forall p q : Q, Qeq p q -> Gq p = Gq q.
+Proof. intros p q H. unfold Gq. f_equal. now apply Q2Qc_eq_iff. Qed.
+
+Lemma Gq_add : forall p q, Gq (p + q) = Gadd (Gq p) (Gq q).
+Proof. intros. unfold Gq, Gadd. simpl. rewrite Q2Qc_add. f_equal. ring. Qed.
+
+Lemma Gq_mul : forall p q, Gq (p * q) = Gmul (Gq p) (Gq q).
+Proof. intros. unfold Gq, Gmul. simpl. rewrite Q2Qc_mul. f_equal; ring. Qed.
+
+(* the semantic theorem instantiated with Q(i): all hypotheses on the algebra are discharged *)
+Theorem Galg_denote_gen_rhs : forall (hval jval : label -> G) (hcoef jcoef : cname -> G)
+    (sgn : bool) (i : input) (g : gen) (rho : G),
+  let js := map deal (j_ops i) in
+  generate_struct sgn i = Ok g ->
+  (forall t, In t (h_terms i) -> NoDup (map fst (snd t))) ->
+  (forall t, In t js -> NoDup (map fst (snd t))) ->
+  (forall t, In t (h_terms i) -> In (snd (fst t)) (h_coeffs i)) ->
+  (forall t, In t js -> In (snd (fst t)) (j_coeffs i)) ->
+  (forall l, In (l, true) (h_conv i) -> hval l = hval l) ->
+  (forall X fl, In (X, fl) (j_dict i) -> f_real fl = true -> Gconj (jval X) = jval X) ->
+  (forall X fl, In (X, fl) (j_dict i) -> f_herm fl = true -> Gconj (jval X) = jval X) ->
+  (forall X fl, In (X, fl) (j_dict i) -> f_id fl = true -> jval X = G1) ->
+  (forall X fl, In (X, fl) (j_dict i) -> f_id fl = true -> f_herm fl = true) ->
+  (forall l e e', In (l, e) (g_log g) -> In (l, e') (g_log g) -> meval Galg hval jval e = meval Galg hval jval e') ->
+  (forall c e e', In (c, e) (g_cwrites g) -> In (c, e') (g_cwrites g) -> ceval Galg hcoef jcoef e = ceval Galg hcoef jcoef e') ->
+  denote_gen Galg hval jval hcoef jcoef g rho = lindblad_rhs Galg hval jval hcoef jcoef sgn (h_terms i) js rho.
+Proof.
+  intros hval jval hcoef jcoef sgn i g rho js Hgen H1 H2 H3 H4 H5 H6 H7 H8 H9 H10 H11.
+  apply (denote_gen_rhs Galg); try assumption; try exact G_ring; try exact Gq_proper; try exact Gq_add;
+    try exact Gq_mul; try reflexivity; simpl; try (g_ring; fail).
+  all: try (intros; reflexivity).
+Qed.
